@@ -1,1 +1,553 @@
-/- C16: property theorems (not built yet). -/
+/-
+  C16 — Lookup functions agree with a linear-scan definition.
+
+  Statement (properties.jsonl): "MATCH(v, a, 0) returns the first position whose value equals v (type-strict,
+  case-insensitive, ?/* wildcards for text) or #N/A; on data sorted in Excel order MATCH(v, a, 1) returns a position
+  holding the largest value <= v and MATCH(v, a, -1) one holding the smallest value >= v, of v's type.
+  VLOOKUP/HLOOKUP/LOOKUP return the cell that INDEX would return at the position MATCH finds, VLOOKUP on a table
+  equals HLOOKUP on its transpose, and out-of-range indices yield #REF!/#VALUE! rather than a wrong cell."
+
+  Model: Pycel/Model/Lookup.lean (lookup.py `_match`, `match`, `vlookup`, `hlookup`, `lookup`, `index`; ExcelCmp).
+  All theorems hold for vectors and tables of ANY length (induction / arithmetic, no enumeration).
+  Vocabulary: `key x` is ExcelCmp(x); `ltK` the strict Excel order on keys (numbers < text < logicals < errors, text
+  case-insensitive); `rank` the type class; `blanks m ++ core ++ blanks n` a vector with blanks at the ends.
+-/
+import Pycel.Lemmas.Lookup
+import Pycel.Generated.LookupTables
+namespace Pycel.Lookup
+open Pycel
+
+/-! ### tables read from the live code (regenerated on every check; a change breaks these proofs) -/
+
+/-- the model's order of error values is Python's order of the error texts in the live `ERROR_CODES` -/
+theorem errOrd_live (e : Err) : errOrd e = Gen.Lookup.errOrdLive e := by cases e <;> rfl
+
+/-- the live excel_helper metadata is what the model's wrappers implement: lookup value may be a CSE array (not
+    modelled), `match_type` / index arguments are coerced to numbers, and exactly these arguments are checked for
+    error values before the body runs (`xmatch`, `xlookupBody`, `lookup`, `indexArgs`) -/
+theorem wrapper_meta_live :
+    Gen.Lookup.matchMeta = ([0], [2], [0, 2]) ∧ Gen.Lookup.vlookupMeta = ([0], [2], [0, 2, 3]) ∧
+    Gen.Lookup.hlookupMeta = ([0], [2], [0, 2, 3]) ∧ Gen.Lookup.lookupMeta = ([0], [], [0]) ∧
+    Gen.Lookup.indexMeta = ([], [1, 2], [1, 2]) := by decide
+
+/-! ### the order and bisect_right -/
+
+/-- ascending in Excel order: every earlier cell is ≤ every later one -/
+def SortedAsc (l : List Val) : Prop := l.Pairwise (fun u w => ltK (key w) (key u) = false)
+
+/-- descending in Excel order -/
+def SortedDesc (l : List Val) : Prop := l.Pairwise (fun u w => ltK (key u) (key w) = false)
+
+theorem num_ne_na (q : Rat) : Val.num q ≠ na := by simp [na]
+
+/-- **bisect_right, range form** (the call `_match` makes): on a blank-free slice `[lo, hi)` that is sorted
+    ascending, the result `r` splits the slice: everything before `r` is ≤ x, everything from `r` on is > x. -/
+theorem C16_bisect_range (x : Val) (a : List Val) (lo hi : Nat) (hlh : lo ≤ hi)
+    (hnb : ∀ i, lo ≤ i → i < hi → cellAtIdx a i ≠ .blank)
+    (hsort : ∀ i j, lo ≤ i → i ≤ j → j < hi → ltK (key (cellAtIdx a j)) (key (cellAtIdx a i)) = false) :
+    lo ≤ bisectRight x a lo hi ∧ bisectRight x a lo hi ≤ hi ∧
+    (∀ i, lo ≤ i → i < bisectRight x a lo hi → ltK (key x) (key (cellAtIdx a i)) = false) ∧
+    (∀ i, bisectRight x a lo hi ≤ i → i < hi → ltK (key x) (key (cellAtIdx a i)) = true) := by
+  have hg : ∀ i, lo ≤ i → i < hi → gtAt x a i = ltK (key x) (key (cellAtIdx a i)) := by
+    intro i h1 h2
+    simp only [gtAt]
+    rw [keyAs_of_ne_blank x (hnb i h1 h2)]
+  have mono : ∀ i j, lo ≤ i → i ≤ j → j < hi → gtAt x a i = true → gtAt x a j = true := by
+    intro i j h1 h2 h3 h4
+    rw [hg i h1 (by omega)] at h4
+    rw [hg j (by omega) h3]
+    exact lt_of_lt_of_le (key_ne_blank _) (key_ne_blank _) h4 (hsort i j h1 h2 h3)
+  obtain ⟨b1, b2, b3, b4⟩ := bisectLoop_spec (gtAt x a) (hi - lo + 1) lo hi hlh (by omega) mono
+  refine ⟨b1, b2, ?_, ?_⟩
+  · intro i h1 h2; rw [← hg i h1 (by unfold bisectRight at h2; omega)]; exact b3 i h1 h2
+  · intro i h1 h2; rw [← hg i (by unfold bisectRight at h1; omega) h2]; exact b4 i h1 h2
+
+/-- **bisect_right on a whole list**: for ALL blank-free lists sorted w.r.t. the Excel order the result is the
+    split point — every element before it is ≤ x, every element from it on is > x. -/
+theorem C16_bisect (x : Val) (a : List Val) (hnb : NoBlank a) (hs : SortedAsc a) :
+    bisectRight x a 0 a.length ≤ a.length ∧
+    (∀ i (h : i < a.length), i < bisectRight x a 0 a.length → ltK (key x) (key a[i]) = false) ∧
+    (∀ i (h : i < a.length), bisectRight x a 0 a.length ≤ i → ltK (key x) (key a[i]) = true) := by
+  have hc : ∀ i (h : i < a.length), cellAtIdx a i = a[i] := by
+    intro i h; simp [cellAtIdx, List.getD_eq_getElem?_getD, h]
+  obtain ⟨_, b2, b3, b4⟩ := C16_bisect_range x a 0 a.length (Nat.zero_le _)
+    (fun i _ h => by rw [hc i h]; exact hnb _ (List.getElem_mem h))
+    (fun i j _ h2 h3 => by
+      rw [hc i (by omega), hc j h3]
+      by_cases hij : i = j
+      · subst hij; exact ltK_irrefl _
+      · exact (List.pairwise_iff_getElem.mp hs) i j (by omega) h3 (by omega))
+  refine ⟨b2, ?_, ?_⟩
+  · intro i h h2; rw [← hc i h]; exact b3 i (Nat.zero_le _) h2
+  · intro i h h2; rw [← hc i h]; exact b4 i h2 h
+
+/-! ### wildcards -/
+
+/-- **wildcards**: the matcher used by MATCH(·,·,0) accepts exactly the texts the pattern denotes: a literal matches
+    itself, `?` exactly one character, `*` any run of characters (`WMatch`). -/
+theorem C16_wild_spec (ts : List PTok) (s : List Char) : wildT ts s = true ↔ WMatch ts s :=
+  ⟨WMatch_of_wildT ts s, wildT_of_WMatch⟩
+
+/-! ### MATCH(v, a, 0) -/
+
+/-- "equals v (type-strict, case-insensitive, ?/* wildcards for text)": what `Matches` means, type by type.
+    A blank or error cell never matches; a blank lookup value is read as the number 0 (code, not governed). -/
+theorem C16_matches_spec (v x : Val) :
+    Matches v x = true ↔
+      match v, x with
+      | .num p, .num q => q = p
+      | .blank, .num q => q = 0
+      | .bool a, .bool b => b = a
+      | .str p, .str s =>
+        if hasWild (lower p) = true then WMatch (parsePat (lower p)) (lower s) else lower s = lower p
+      | _, _ => False := by
+  cases v <;> cases x <;> simp [Matches, candidate, eqv, key, rank, Val.isErr]
+  case str.str p s =>
+    by_cases hw : hasWild (lower p) = true
+    · simp [hw, wild, C16_wild_spec]
+    · simp [hw]
+
+/-- **C16 (exact)**: "MATCH(v, a, 0) returns the first position whose value equals v … or #N/A" — for every vector:
+    either no cell matches and the answer is #N/A, or the answer is the 1-based position of a matching cell all of
+    whose predecessors do not match. -/
+theorem C16_exact (v : Val) (a : List Val) :
+    (matchExact v a = na ∧ ∀ x ∈ a, Matches v x = false) ∨
+    (∃ pre y post, a = pre ++ y :: post ∧ (∀ x ∈ pre, Matches v x = false) ∧ Matches v y = true ∧
+      matchExact v a = .num ((pre.length + 1 : Nat) : Rat)) := by
+  rcases scanExact_spec v a 1 with h | ⟨pre, y, post, h1, h2, h3, h4⟩
+  · left; exact h
+  · right; exact ⟨pre, y, post, h1, h2, h3, by rw [matchExact, h4, Nat.add_comm]⟩
+
+/-- #N/A exactly when nothing matches -/
+theorem C16_exact_na (v : Val) (a : List Val) :
+    matchExact v a = na ↔ ∀ x ∈ a, Matches v x = false := by
+  rcases C16_exact v a with ⟨h1, h2⟩ | ⟨pre, y, post, h1, _, h3, h4⟩
+  · exact ⟨fun _ => h2, fun _ => h1⟩
+  · constructor
+    · intro h; rw [h4] at h; exact absurd h (num_ne_na _)
+    · intro h; rw [h y (by rw [h1]; simp)] at h3; cases h3
+
+/-- index form: a numeric answer `p` is in range, `a[p-1]` matches and no earlier cell does -/
+theorem C16_exact_first (v : Val) (a : List Val) (q : Rat) (h : matchExact v a = .num q) :
+    ∃ p : Nat, q = (p : Rat) ∧ 1 ≤ p ∧ p ≤ a.length ∧ (∃ y, a[p - 1]? = some y ∧ Matches v y = true) ∧
+      ∀ j y, j < p - 1 → a[j]? = some y → Matches v y = false := by
+  rcases C16_exact v a with ⟨h1, _⟩ | ⟨pre, y, post, h1, h2, h3, h4⟩
+  · rw [h1] at h; exact absurd h.symm (num_ne_na _)
+  · rw [h4] at h
+    have hq : q = ((pre.length + 1 : Nat) : Rat) := by injection h with h; exact h.symm
+    refine ⟨pre.length + 1, hq, by omega, by rw [h1]; simp, ⟨y, by rw [h1]; simp, h3⟩, ?_⟩
+    intro j z hj hz
+    have hj' : j < pre.length := by omega
+    rw [h1, List.getElem?_append_left hj'] at hz
+    exact h2 z (List.mem_of_getElem? hz)
+
+/-! ### MATCH(v, a, 1) on ascending data with blanks at the ends -/
+
+theorem matchAsc_all_blank (v : Val) (k : Nat) : matchAsc v (blanks k) = na := by
+  have hall : ∀ r, (∀ i, i < r → rank (cellAtIdx (blanks k) i) = rank v → cellAtIdx (blanks k) i = .blank) :=
+    fun r i _ _ => cell_blank_all k i
+  simp only [matchAsc]
+  exact if_pos (backoff_blank (rank v) (blanks k) _ (hall _))
+
+/-- **C16 (approximate, ascending)**: "on data sorted in Excel order MATCH(v, a, 1) returns a position holding the
+    largest value <= v … of v's type" (or #N/A when there is none) — for every vector `blanks ++ core ++ blanks`
+    whose blank-free core is ascending, of any length:
+    either #N/A and every core cell of v's type is > v, or a position `p` whose cell `y` lies in the core, has
+    v's type, is ≤ v, and is ≥ every core cell that is ≤ v. -/
+theorem C16_approx_asc (v : Val) (m n : Nat) (core : List Val) (hnb : NoBlank core) (hs : SortedAsc core) :
+    (matchAsc v (blanks m ++ core ++ blanks n) = na ∧
+        ∀ x ∈ core, rank x = rank v → ltK (key v) (key x) = true) ∨
+    (∃ (p : Nat) (y : Val), matchAsc v (blanks m ++ core ++ blanks n) = .num (p : Rat) ∧
+        1 ≤ p ∧ p ≤ (blanks m ++ core ++ blanks n).length ∧ (blanks m ++ core ++ blanks n)[p - 1]? = some y ∧
+        y ∈ core ∧ rank y = rank v ∧ ltK (key v) (key y) = false ∧
+        ∀ x ∈ core, ltK (key v) (key x) = false → ltK (key y) (key x) = false) := by
+  by_cases hne : core = []
+  · subst hne
+    left
+    refine ⟨?_, by simp⟩
+    have : blanks m ++ [] ++ blanks n = blanks (m + n) := by simp [blanks, List.replicate_append_replicate]
+    rw [this]; exact matchAsc_all_blank v _
+  · obtain ⟨a, ha⟩ : ∃ a, a = blanks m ++ core ++ blanks n := ⟨_, rfl⟩
+    rw [← ha]
+    have hcell : ∀ i, (h0 : m ≤ i) → (h : i < m + core.length) → cellAtIdx a i = core[i - m]'(by omega) := by
+      intro i h1 h2
+      have := cell_mid m n core (i - m) (by omega)
+      rw [ha]
+      rwa [show m + (i - m) = i by omega] at this
+    have hmem : ∀ i, m ≤ i → (h : i < m + core.length) → cellAtIdx a i ∈ core := by
+      intro i h1 h2; rw [hcell i h1 h2]; exact List.getElem_mem _
+    have hsorted : ∀ i j, m ≤ i → i ≤ j → j < m + core.length →
+        ltK (key (cellAtIdx a j)) (key (cellAtIdx a i)) = false := by
+      intro i j h1 h2 h3
+      rw [hcell i h1 (by omega), hcell j (by omega) h3]
+      by_cases hij : i = j
+      · subst hij; exact ltK_irrefl _
+      · have e1 : i - m < core.length := by omega
+        have e2 : j - m < core.length := by omega
+        have e3 : i - m < j - m := by omega
+        exact (List.pairwise_iff_getElem.mp hs) (i - m) (j - m) e1 e2 e3
+    have hidx : ∀ x ∈ core, ∃ i, m ≤ i ∧ i < m + core.length ∧ cellAtIdx a i = x := by
+      intro x hx
+      obtain ⟨k, hk, rfl⟩ := List.mem_iff_getElem.mp hx
+      exact ⟨m + k, by omega, by omega, by rw [ha]; exact cell_mid m n core k hk⟩
+    rcases matchAsc_index v a m (m + core.length) (by omega) (by rw [ha]; exact leadBlanks_shape m n hne hnb)
+        (by rw [ha]; exact trimHi_shape m n hne hnb) (fun i h => by rw [ha]; exact cell_low m n core i h)
+        (fun i h1 h2 => hnb _ (hmem i h1 h2)) hsorted with ⟨h1, h2⟩ | ⟨r, h1, h2, h3, h4, h5, h6⟩
+    · left
+      refine ⟨h1, ?_⟩
+      intro x hx hr
+      obtain ⟨i, i1, i2, rfl⟩ := hidx x hx
+      exact h2 i i1 i2 hr
+    · right
+      have hlen : a.length = m + core.length + n := by rw [ha]; simp [blanks]; omega
+      have hget : a[r - 1]? = some (cellAtIdx a (r - 1)) := by
+        have : r - 1 < a.length := by omega
+        simp [cellAtIdx, List.getD_eq_getElem?_getD, this]
+      refine ⟨r, cellAtIdx a (r - 1), h3, by omega, by omega, hget, hmem _ (by omega) (by omega), h4, h5, ?_⟩
+      intro x hx hle
+      obtain ⟨i, i1, i2, rfl⟩ := hidx x hx
+      have := h6 i i1 i2 hle
+      exact hsorted i (r - 1) i1 this (by omega)
+
+/-- #N/A exactly when the core holds no cell of v's type that is ≤ v -/
+theorem C16_approx_asc_na (v : Val) (m n : Nat) (core : List Val) (hnb : NoBlank core) (hs : SortedAsc core) :
+    matchAsc v (blanks m ++ core ++ blanks n) = na ↔
+      ∀ x ∈ core, rank x = rank v → ltK (key v) (key x) = true := by
+  rcases C16_approx_asc v m n core hnb hs with ⟨h1, h2⟩ | ⟨p, y, h1, _, _, _, h5, h6, h7, _⟩
+  · exact ⟨fun _ => h2, fun _ => h1⟩
+  · constructor
+    · intro h; rw [h1] at h; exact absurd h (num_ne_na _)
+    · intro h; rw [h y h5 h6] at h7; cases h7
+
+/-! ### MATCH(v, a, -1) on descending data (blank cells anywhere are ignored) -/
+
+/-- a vector `blanks ++ core ++ blanks` with a descending blank-free core is descending once blanks are ignored -/
+theorem descPW_shape (m n : Nat) (core : List Val) (hs : SortedDesc core) :
+    DescPW (blanks m ++ core ++ blanks n) := by
+  have hb : ∀ k, ∀ x ∈ blanks k, x = Val.blank := fun k x hx => (List.mem_replicate.mp hx).2
+  unfold DescPW
+  rw [List.pairwise_append, List.pairwise_append]
+  refine ⟨⟨?_, ?_, ?_⟩, ?_, ?_⟩
+  · exact List.pairwise_replicate.mpr (Or.inr (fun h _ => absurd rfl h))
+  · exact hs.imp (fun h _ _ => h)
+  · intro x hx y _ hxb; exact absurd (hb m x hx) hxb
+  · exact List.pairwise_replicate.mpr (Or.inr (fun h _ => absurd rfl h))
+  · intro x _ y hy _ hyb; exact absurd (hb n y hy) hyb
+
+/-- **C16 (approximate, descending)**: "MATCH(v, a, -1) [returns a position] holding the smallest value >= v, of
+    v's type" (or #N/A when there is none) — for every vector that is descending once blank cells are ignored
+    (in particular `blanks ++ descending core ++ blanks`, see `descPW_shape`), of any length:
+    either #N/A and no cell is of v's type and ≥ v, or the 1-based position of a cell `y` of v's type with
+    y ≥ v that is ≤ every cell of v's type that is ≥ v. -/
+theorem C16_approx_desc (v : Val) (a : List Val) (hs : DescPW a) :
+    (matchDesc v a = na ∧ ∀ x ∈ a, AtLeast v x = false) ∨
+    (∃ pre y post, a = pre ++ y :: post ∧ AtLeast v y = true ∧
+      matchDesc v a = .num ((pre.length + 1 : Nat) : Rat) ∧
+      ∀ x ∈ a, AtLeast v x = true → ltK (key x) (key y) = false) := by
+  rcases scanDesc_spec v a 1 na hs with ⟨h1, h2⟩ | ⟨pre, y, post, h1, h2, h3, h4⟩
+  · left; exact ⟨h2, h1⟩
+  · right; exact ⟨pre, y, post, h1, h2, by rw [matchDesc, h3, Nat.add_comm], h4⟩
+
+/-- #N/A exactly when no cell of v's type is ≥ v -/
+theorem C16_approx_desc_na (v : Val) (a : List Val) (hs : DescPW a) :
+    matchDesc v a = na ↔ ∀ x ∈ a, AtLeast v x = false := by
+  rcases C16_approx_desc v a hs with ⟨h1, h2⟩ | ⟨pre, y, post, h1, h2, h3, _⟩
+  · exact ⟨fun _ => h2, fun _ => h1⟩
+  · constructor
+    · intro h; rw [h3] at h; exact absurd h (num_ne_na _)
+    · intro h; rw [h y (by rw [h1]; simp)] at h2; cases h2
+
+/-- what `AtLeast` means: not blank, not an error, of v's type, and not below v -/
+theorem C16_atLeast_spec (v x : Val) :
+    AtLeast v x = true ↔ x ≠ .blank ∧ x.isErr = false ∧ rank x = rank v ∧ ltK (key x) (key v) = false := by
+  simp [AtLeast, candidate]
+  constructor
+  · rintro ⟨⟨⟨h1, h2⟩, h3⟩, h4⟩; exact ⟨h2, h1, h3, h4⟩
+  · rintro ⟨h1, h2, h3, h4⟩; exact ⟨⟨⟨h2, h1⟩, h3⟩, h4⟩
+
+/-! ### VLOOKUP / HLOOKUP / LOOKUP = INDEX at the position MATCH finds -/
+
+/-- a vector written as a one-column array (what `match` receives for a column range) -/
+def colArr (l : List Val) : Arr := l.map fun x => [x]
+
+theorem vecOf_colArr (l : List Val) : vecOf (colArr l) = l := by
+  unfold vecOf
+  split
+  · rename_i h
+    match l, h with
+    | [x], _ => rfl
+  · simp [firstCol, colArr, List.map_map, Function.comp_def]
+
+theorem vecOf_row (r : List Val) : vecOf [r] = r := by simp [vecOf]
+
+/-- MATCH with a numeric match type and a non-error lookup value is `_match` on the vector -/
+theorem xmatch_num (v : Val) (arr : Arr) (mt : Rat) (hv : v.isErr = false) :
+    xmatch v arr (.num mt) = pmatch v (vecOf arr) mt := by simp [xmatch, numArg, hv]
+
+/-- INDEX(t, r, c) with r, c ≥ 1 reads `t[r-1][c-1]`, #REF! when there is no such cell -/
+theorem index_nat (t : Arr) (r c : Nat) (hr : 1 ≤ r) (hc : 1 ≤ c) :
+    index t (.num (r : Rat)) (some (.num (c : Rat))) =
+      .cell ((t[r - 1]?.bind (·[c - 1]?)).getD (.err .ref)) := by
+  have e1 := natCast_ne_zero hr
+  have e2 := natCast_ne_zero hc
+  have e3 := natCast_not_neg r
+  have e4 := natCast_not_neg c
+  simp only [index, indexArgs, Option.getD_some, Val.isErr, Bool.false_eq_true, ↓reduceIte, numArg, ne_eq, e1,
+    not_false_eq_true, e2, and_self, e3, e4, or_self, cellAt, nth?_nat t r hr, fun l : List Val => nth?_nat l c hc]
+
+/-- **C16 (INDEX, in range)**: inside the table INDEX returns exactly the addressed cell. -/
+theorem C16_index_in_range (t : Arr) (r c : Nat) (hr : 1 ≤ r) (hc : 1 ≤ c) (h1 : r - 1 < t.length)
+    (h2 : c - 1 < (t[r - 1]'h1).length) :
+    index t (.num (r : Rat)) (some (.num (c : Rat))) = .cell ((t[r - 1]'h1)[c - 1]'h2) := by
+  rw [index_nat t r c hr hc]
+  simp [h1, h2]
+
+/-- **C16 (INDEX, out of range)**: "out-of-range indices yield #REF!/#VALUE! rather than a wrong cell" — a row
+    beyond the last row or a column beyond every row's end gives #REF!, a negative index gives #VALUE!. -/
+theorem C16_index_out_of_range (t : Arr) :
+    (∀ r c : Nat, 1 ≤ r → 1 ≤ c → t.length < r →
+        index t (.num (r : Rat)) (some (.num (c : Rat))) = .cell (.err .ref)) ∧
+    (∀ r c : Nat, 1 ≤ r → 1 ≤ c → (∀ row ∈ t, row.length < c) →
+        index t (.num (r : Rat)) (some (.num (c : Rat))) = .cell (.err .ref)) ∧
+    (∀ q1 q2 : Rat, q1 < 0 ∨ q2 < 0 → index t (.num q1) (some (.num q2)) = .cell (.err .value)) := by
+  refine ⟨?_, ?_, ?_⟩
+  · intro r c hr hc h
+    rw [index_nat t r c hr hc]
+    have : t[r - 1]? = none := by simp; omega
+    simp [this]
+  · intro r c hr hc h
+    rw [index_nat t r c hr hc]
+    cases hrow : t[r - 1]? with
+    | none => simp
+    | some row =>
+      have := h row (List.mem_of_getElem? hrow)
+      have : row[c - 1]? = none := by simp; omega
+      simp [this]
+  · intro q1 q2 h
+    simp only [index, indexArgs, Option.getD_some, Val.isErr, Bool.false_eq_true, ↓reduceIte, numArg, ne_eq]
+    by_cases h1 : q1 = 0 <;> by_cases h2 : q2 = 0
+    · subst h1; subst h2; rcases h with h | h <;> exact absurd h (by decide)
+    · subst h1
+      have : q2 < 0 := by rcases h with h | h; exact absurd h (by decide); exact h
+      simp [h2, this]
+    · subst h2
+      have : q1 < 0 := by rcases h with h | h; exact h; exact absurd h (by decide)
+      simp [h1, this]
+    · simp [h1, h2, h]
+
+theorem firstCol_length (t : Arr) : (firstCol t).length = t.length := by simp [firstCol]
+
+/-- shared form of the VLOOKUP/HLOOKUP body for an in-range natural index -/
+theorem xlookupBody_nat (v : Val) (vec : List Val) (limit c : Nat) (rl : Val) (pick : Rat → Rat → Option Val)
+    (hv : v.isErr = false) (hrl : rl.isErr = false) (h1 : 1 ≤ c) (h2 : c ≤ limit) :
+    xlookupBody v vec limit (.num (c : Rat)) rl pick =
+      onPos (pmatch v vec (if truthy rl then 1 else 0)) fun idx => (pick idx (c : Rat)).getD (.err .ref) := by
+  have e1 := natCast_not_le_zero h1
+  have e2 : ¬ ((c : Nat) : Rat) > ((limit : Nat) : Rat) := by
+    rw [gt_iff_lt, Rat.not_lt]; exact Rat.natCast_le_natCast.mpr h2
+  simp only [xlookupBody, numArg, hv, hrl, Bool.false_eq_true, ↓reduceIte, e1, e2]
+
+/-- **C16 (VLOOKUP)**: "VLOOKUP … return[s] the cell that INDEX would return at the position MATCH finds" —
+    for a column index inside the table: either MATCH on the first column (match type 1 when range_lookup is true,
+    0 otherwise) answers a position `p` — then `p` is a row of the table and VLOOKUP is INDEX(table, p, c) —
+    or MATCH answers an error and VLOOKUP returns that error. -/
+theorem C16_vlookup (v : Val) (t : Arr) (c : Nat) (rl : Val) (hv : v.isErr = false) (hrl : rl.isErr = false)
+    (h1 : 1 ≤ c) (h2 : c ≤ width t) :
+    (∃ p : Nat, xmatch v (colArr (firstCol t)) (.num (if truthy rl then 1 else 0)) = .num (p : Rat) ∧
+        1 ≤ p ∧ p ≤ t.length ∧
+        index t (.num (p : Rat)) (some (.num (c : Rat))) = .cell (vlookup v t (.num (c : Rat)) rl)) ∨
+    ((∀ q, xmatch v (colArr (firstCol t)) (.num (if truthy rl then 1 else 0)) ≠ .num q) ∧
+        vlookup v t (.num (c : Rat)) rl = xmatch v (colArr (firstCol t)) (.num (if truthy rl then 1 else 0))) := by
+  rw [xmatch_num _ _ _ hv, vecOf_colArr]
+  unfold vlookup
+  rw [xlookupBody_nat v _ _ c rl _ hv hrl h1 h2]
+  cases hp : pmatch v (firstCol t) (if truthy rl then 1 else 0) with
+  | num q =>
+    left
+    obtain ⟨p, rfl, p1, p2⟩ := pmatch_range _ _ _ _ hp
+    rw [firstCol_length] at p2
+    refine ⟨p, rfl, p1, p2, ?_⟩
+    rw [index_nat t p c p1 h1]
+    simp only [onPos, cellAt, nth?_nat t p p1, fun l : List Val => nth?_nat l c h1]
+  | str _ => right; exact ⟨fun q h => (by cases h), rfl⟩
+  | bool _ => right; exact ⟨fun q h => (by cases h), rfl⟩
+  | blank => right; exact ⟨fun q h => (by cases h), rfl⟩
+  | err _ => right; exact ⟨fun q h => (by cases h), rfl⟩
+
+/-- **C16 (HLOOKUP)**: the same with rows and columns exchanged: MATCH runs along the first row, the answer is
+    INDEX(table, r, p). -/
+theorem C16_hlookup (v : Val) (t : Arr) (r : Nat) (rl : Val) (hv : v.isErr = false) (hrl : rl.isErr = false)
+    (h1 : 1 ≤ r) (h2 : r ≤ t.length) :
+    (∃ p : Nat, xmatch v [t.headD []] (.num (if truthy rl then 1 else 0)) = .num (p : Rat) ∧
+        1 ≤ p ∧ p ≤ width t ∧
+        index t (.num (r : Rat)) (some (.num (p : Rat))) = .cell (hlookup v t (.num (r : Rat)) rl)) ∨
+    ((∀ q, xmatch v [t.headD []] (.num (if truthy rl then 1 else 0)) ≠ .num q) ∧
+        hlookup v t (.num (r : Rat)) rl = xmatch v [t.headD []] (.num (if truthy rl then 1 else 0))) := by
+  rw [xmatch_num _ _ _ hv, vecOf_row]
+  unfold hlookup
+  rw [xlookupBody_nat v _ _ r rl _ hv hrl h1 h2]
+  cases hp : pmatch v (t.headD []) (if truthy rl then 1 else 0) with
+  | num q =>
+    left
+    obtain ⟨p, rfl, p1, p2⟩ := pmatch_range _ _ _ _ hp
+    refine ⟨p, rfl, p1, p2, ?_⟩
+    rw [index_nat t r p h1 p1]
+    simp only [onPos, cellAt, nth?_nat t r h1, fun l : List Val => nth?_nat l p p1]
+  | str _ => right; exact ⟨fun q h => (by cases h), rfl⟩
+  | bool _ => right; exact ⟨fun q h => (by cases h), rfl⟩
+  | blank => right; exact ⟨fun q h => (by cases h), rfl⟩
+  | err _ => right; exact ⟨fun q h => (by cases h), rfl⟩
+
+/-- **C16 (LOOKUP)**: LOOKUP is INDEX(result vector, p) at the position `p` MATCH (type 1) finds in the lookup
+    vector; the result vector is the last column/row of the array (array form) or the given vector; a result range
+    that is not a vector gives #N/A. -/
+theorem C16_lookup (v : Val) (t : Arr) (rr : Option Arr) (res : List Val) (hv : v.isErr = false)
+    (hres : resultOf t rr = some res) :
+    (∃ p : Nat, xmatch v (colArr (lookupVecs t).1) (.num 1) = .num (p : Rat) ∧ 1 ≤ p ∧
+        index (colArr res) (.num (p : Rat)) (some (.num ((1 : Nat) : Rat))) = .cell (lookup v t rr)) ∨
+    ((∀ q, xmatch v (colArr (lookupVecs t).1) (.num 1) ≠ .num q) ∧
+        lookup v t rr = xmatch v (colArr (lookupVecs t).1) (.num 1)) := by
+  rw [xmatch_num _ _ _ hv, vecOf_colArr]
+  simp only [lookup, hv, Bool.false_eq_true, ↓reduceIte, hres]
+  cases hp : pmatch v (lookupVecs t).1 1 with
+  | num q =>
+    left
+    obtain ⟨p, rfl, p1, _⟩ := pmatch_range _ _ _ _ hp
+    refine ⟨p, rfl, p1, ?_⟩
+    rw [index_nat (colArr res) p 1 p1 (by omega)]
+    simp only [onPos, nth?_nat res p p1]
+    congr 1
+    simp only [colArr, List.getElem?_map]
+    cases res[p - 1]? <;> simp
+  | str _ => right; exact ⟨fun q h => (by cases h), rfl⟩
+  | bool _ => right; exact ⟨fun q h => (by cases h), rfl⟩
+  | blank => right; exact ⟨fun q h => (by cases h), rfl⟩
+  | err _ => right; exact ⟨fun q h => (by cases h), rfl⟩
+
+theorem C16_lookup_not_vector (v : Val) (t r : Arr) (hv : v.isErr = false) (h : resultVec r = none) :
+    lookup v t (some r) = na := by
+  simp [lookup, resultOf, hv, h]
+
+/-! ### VLOOKUP on a table = HLOOKUP on its transpose -/
+
+/-- a non-empty rectangular table -/
+def Rect (t : Arr) : Prop := 0 < width t ∧ ∀ row ∈ t, row.length = width t
+
+theorem transpose_length (t : Arr) : (transpose t).length = width t := by simp [transpose]
+
+theorem getD_zero_eq_headD (l : List Val) : l.getD 0 .blank = l.headD .blank := by cases l <;> rfl
+
+theorem transpose_head (t : Arr) (h : 0 < width t) : (transpose t).headD [] = firstCol t := by
+  unfold transpose
+  obtain ⟨w, hw⟩ : ∃ w, width t = w + 1 := ⟨width t - 1, by omega⟩
+  rw [hw, List.range_succ_eq_map]
+  simp only [firstCol, List.map_cons, List.headD_cons]
+  apply List.map_congr_left
+  intro a _; exact getD_zero_eq_headD a
+
+theorem cellAt_transpose (t : Arr) (h : Rect t) (r c : Rat) : cellAt t r c = cellAt (transpose t) c r := by
+  simp only [cellAt, nth?]
+  generalize (r.floor - 1).toNat = i
+  generalize (c.floor - 1).toNat = j
+  by_cases hj : j < width t
+  · have : (transpose t)[j]? = some (t.map fun rw => rw.getD j .blank) := by
+      simp [transpose, hj]
+    rw [this]
+    simp only [Option.bind_some, List.getElem?_map]
+    cases hrow : t[i]? with
+    | none => simp
+    | some row =>
+      have hl := h.2 row (List.mem_of_getElem? hrow)
+      have : j < row.length := by omega
+      simp [List.getD_eq_getElem?_getD, this]
+  · have : (transpose t)[j]? = none := by simp [transpose]; omega
+    rw [this]
+    cases hrow : t[i]? with
+    | none => simp
+    | some row =>
+      have hl := h.2 row (List.mem_of_getElem? hrow)
+      have : row[j]? = none := by simp; omega
+      simp [this]
+
+/-- **C16 (transpose)**: "VLOOKUP on a table equals HLOOKUP on its transpose" — for every rectangular table, every
+    lookup value, index argument (in range or not, any type) and range_lookup argument. -/
+theorem C16_transpose (v : Val) (t : Arr) (k rl : Val) (h : Rect t) :
+    vlookup v t k rl = hlookup v (transpose t) k rl := by
+  unfold vlookup hlookup
+  rw [transpose_head t h.1, transpose_length]
+  congr 1
+  funext idx k
+  exact cellAt_transpose t h idx k
+
+/-! ### out-of-range indices -/
+
+/-- **C16 (out of range)**: "out-of-range indices yield #REF!/#VALUE! rather than a wrong cell" — for VLOOKUP and
+    HLOOKUP, whatever the lookup finds: an index ≤ 0 gives #VALUE!, an index beyond the table gives #REF!. -/
+theorem C16_out_of_range (v : Val) (t : Arr) (k rl : Val) (q : Rat) (hk : numArg k = .ok q)
+    (hv : v.isErr = false) (hrl : rl.isErr = false) :
+    (q ≤ 0 → vlookup v t k rl = .err .value ∧ hlookup v t k rl = .err .value) ∧
+    (q > ((width t : Nat) : Rat) → vlookup v t k rl = .err .ref) ∧
+    (q > ((t.length : Nat) : Rat) → hlookup v t k rl = .err .ref) := by
+  have pos : ∀ n : Nat, q > ((n : Nat) : Rat) → ¬ q ≤ 0 := by
+    intro n h1 h2
+    have h3 : ((0 : Nat) : Rat) ≤ ((n : Nat) : Rat) := Rat.natCast_le_natCast.mpr (Nat.zero_le n)
+    have h4 : q ≤ ((n : Nat) : Rat) := Std.le_trans h2 (by simpa using h3)
+    exact absurd h1 (Rat.not_lt.mpr h4)
+  refine ⟨?_, ?_, ?_⟩
+  · intro h; simp [vlookup, hlookup, xlookupBody, hk, hv, hrl, h]
+  · intro h; have := pos _ h; simp [vlookup, xlookupBody, hk, hv, hrl, this, h]
+  · intro h; have := pos _ h; simp [hlookup, xlookupBody, hk, hv, hrl, this, h]
+
+/-- **never a wrong cell**: whenever VLOOKUP with an in-range index returns through a found position, the value is
+    the table cell in that row and the requested column (it is never read from another place). -/
+theorem C16_lookup_cell (v : Val) (t : Arr) (c : Nat) (rl : Val) (hv : v.isErr = false) (hrl : rl.isErr = false)
+    (h1 : 1 ≤ c) (h2 : c ≤ width t) (p : Nat)
+    (hp : pmatch v (firstCol t) (if truthy rl then 1 else 0) = .num (p : Rat)) (hp1 : 1 ≤ p) :
+    vlookup v t (.num (c : Rat)) rl = ((t[p - 1]?.bind (·[c - 1]?)).getD (.err .ref)) := by
+  unfold vlookup
+  rw [xlookupBody_nat v _ _ c rl _ hv hrl h1 h2, hp]
+  simp only [onPos, cellAt, nth?_nat t p hp1, fun l : List Val => nth?_nat l c h1]
+
+/-! ### non-vacuity: the hypotheses are met by concrete mixed-type data and the functions answer as Excel does -/
+
+section Examples
+
+def exCore : List Val := [.num 1, .num 2, .num 2, .num 3, .str "a".toList, .str "B".toList, .bool false, .bool true]
+def exVec : List Val := blanks 1 ++ exCore ++ blanks 2
+def exDesc : List Val := [.blank, .bool true, .str "b".toList, .str "A".toList, .num 3, .num 1, .blank]
+def exTable : Arr := [[.num 1, .str "x".toList], [.num 2, .str "y".toList], [.num 4, .str "z".toList]]
+
+example : NoBlank exCore := by unfold NoBlank; decide +kernel
+example : SortedAsc exCore := by unfold SortedAsc; decide +kernel
+example : SortedDesc [Val.bool true, .str "b".toList, .str "A".toList, .num 3, .num 1] := by
+  unfold SortedDesc; decide +kernel
+example : DescPW exDesc := by unfold DescPW; decide +kernel
+example : Rect exTable := by unfold Rect; decide +kernel
+-- largest value ≤ 2.5 among numbers: the second 2 (position 4 counting the leading blank)
+example : matchAsc (.num (5/2)) exVec = .num 4 := by decide +kernel
+-- text lookup lands in the text segment, case-insensitively; nothing of the type ≤ v gives #N/A
+example : matchAsc (.str "b".toList) exVec = .num 7 := by decide +kernel
+example : matchAsc (.num 0) exVec = na := by decide +kernel
+-- smallest value ≥ 2 among numbers, ignoring the blanks
+example : matchDesc (.num 2) exDesc = .num 5 := by decide +kernel
+example : matchDesc (.num 4) exDesc = na := by decide +kernel
+-- exact: first match, wildcards, type-strict (the text "1" is not the number 1), blank never equals 0
+example : matchExact (.str "?".toList) exVec = .num 6 := by decide +kernel
+example : matchExact (.str "~?".toList) [.str "a".toList, .str "?".toList] = .num 2 := by decide +kernel
+example : matchExact (.num 2) exVec = .num 3 := by decide +kernel
+example : matchExact (.num 1) [.str "1".toList, .num 1] = .num 2 := by decide +kernel
+example : matchExact (.num 0) [.blank, .str "a".toList] = na := by decide +kernel
+example : WMatch (parsePat "a*c?".toList) "abbcd".toList :=
+  .lit 'a' (.many "bb".toList (.lit 'c' (.one 'd' .nil)))
+example : vlookup (.num 3) exTable (.num 2) (.bool true) = .str "y".toList := by decide +kernel
+example : hlookup (.num 3) (transpose exTable) (.num 2) (.bool true) = .str "y".toList := by decide +kernel
+example : vlookup (.num 3) exTable (.num 2) (.bool false) = na := by decide +kernel
+example : vlookup (.num 3) exTable (.num 3) (.bool true) = .err .ref := by decide +kernel
+example : vlookup (.num 3) exTable (.num 0) (.bool true) = .err .value := by decide +kernel
+example : index exTable (.num 3) (some (.num 2)) = .cell (.str "z".toList) := by decide +kernel
+example : index exTable (.num 4) (some (.num 2)) = .cell (.err .ref) := by decide +kernel
+example : lookup (.num 3) exTable none = .str "y".toList := by decide +kernel
+
+end Examples
+
+end Pycel.Lookup
